@@ -29,12 +29,19 @@ PROP = {
              "distinct destinations on one socket (decision cache overflowed); distinct = (pattern, table size, deny "
              "share, sequence). ACL layer: random rule texts (1..14 rules over exact / wildcard / suffix / CIDR / IP / all "
              "matchers, proto tcp|udp|*, ports and ranges, optional hijack IP, outbounds ob1 ob2 direct default reject) "
-             "compiled by the real engine behind PluggableOutboundAdapter (with and without a fake resolver); for every "
-             "address of a host x port grid plus malformed addresses: CheckUDP rejects <=> UDP rejects, both consult the "
-             "same sub-outbound with the same address, verdicts are stable when re-asked after >1024 other lookups."),
+             "compiled by the real engine behind PluggableOutboundAdapter, with and without a fake resolver stage that -- like "
+             "the real resolvers -- also delivers partial failures (error set AND one address family resolved) and complete "
+             "failures; for every address of a host x port grid (names, IP literals, partially / completely unresolvable "
+             "names) plus malformed addresses: CheckUDP rejects <=> UDP rejects, both consult the same sub-outbound with "
+             "the same address, verdicts are stable when re-asked after >1024 other lookups, and the chosen outbound / "
+             "reject and the host handed on equal a reference first-match evaluation written from the documented rule "
+             "semantics (IP and CIDR rules apply to whatever address was resolved, hijack replaces the host, no match = "
+             "default outbound)."),
     "assumptions": [
         "the policy is a pure function of the destination string (as the property quantifies it)",
         "sub-outbounds behind the ACL engine answer CheckUDP and UDP consistently (fakes do)",
+        "reference ACL evaluation: '*' in a name pattern matches any run of characters, names compare case-insensitively; "
+        "IDN (xn--) hosts and, without a resolver stage, IP-literal hosts are excluded from the reference comparison",
         "no idle expiry or socket fault occurs in the server-layer cases (10 min timeout, virtual time barely moves)",
     ],
 }
